@@ -372,6 +372,103 @@ func init() {
 		}
 		return "ok"
 	})
+	// WAL page locality (theorems C10_wal_page_local / C10_wal_page_damage_local): for the file as it is and with page j
+	// replaced, the records ParseWALFile reports are those of the bytes before page j, then those parseWALPage reports for
+	// page j ON ITS OWN (exact-size copy, a different base offset and page number), then those of the bytes after it -
+	// so every other page's records are reported unchanged and in place.  args: file, page index, replacement page
+	register("LocalityWAL", func(a []string) string {
+		file, repl := unhex(a[0]), unhex(a[2])
+		j, _ := strconv.Atoi(a[1])
+		if len(repl) != 8192 || (j+1)*8192 > len(file) {
+			return "harness-bad-case"
+		}
+		dam := append([]byte{}, file...)
+		copy(dam[j*8192:(j+1)*8192], repl)
+		strs := func(rs []pgdump.WALRecord) []string {
+			out := make([]string, 0, len(rs))
+			for _, r := range rs {
+				out = append(out, deepStr(r))
+			}
+			return out
+		}
+		fileRecs := func(b []byte) []string { r, _ := pgdump.ParseWALFile(append([]byte{}, b...)); return strs(r) }
+		pageRecs := func(b []byte) []string {
+			r, _ := pgdump.VerifParseWALPage(append([]byte{}, b...), 0x123456789, 77)
+			return strs(r)
+		}
+		split := func(f []byte) (string, string, string) { // "" when the decomposition fails
+			pre, mid, post := fileRecs(f[:j*8192]), pageRecs(f[j*8192:(j+1)*8192]), fileRecs(f[(j+1)*8192:])
+			all := append(append(append([]string{}, pre...), mid...), post...)
+			if cList(all) != cList(fileRecs(f)) {
+				return "", "", ""
+			}
+			return "p" + cList(pre), cList(mid), "s" + cList(post)
+		}
+		p1, _, s1 := split(file)
+		p2, _, s2 := split(dam)
+		if p1 == "" {
+			return "wal-file-is-not-the-concatenation-of-its-pages"
+		}
+		if p2 == "" {
+			return "wal-page-locality-violated:damaged-file-is-not-the-concatenation-of-its-pages"
+		}
+		if p1 != p2 || s1 != s2 {
+			return "wal-page-locality-violated"
+		}
+		if len(file)/24 < len(fileRecs(file)) || len(dam)/24 < len(fileRecs(dam)) { // C10_cost_ParseWALFile
+			return "wal-more-than-one-record-per-24-bytes"
+		}
+		return "ok"
+	})
+	// index page locality (theorems C10_index_entry_local / C10_index_page_damage_local): entry i of ParseIndexFile is
+	// parseIndexPage of page i on its own (exact-size copy) with the method detectIndexType finds on the first page; and
+	// when a page j <> 0 is replaced, type, totals, metapage summary and every entry but j are unchanged.
+	register("LocalityIndex", func(a []string) string {
+		file, repl := unhex(a[0]), unhex(a[2])
+		j, _ := strconv.Atoi(a[1])
+		if len(repl) != 8192 || (j+1)*8192 > len(file) {
+			return "harness-bad-case"
+		}
+		dam := append([]byte{}, file...)
+		copy(dam[j*8192:(j+1)*8192], repl)
+		pointwise := func(f []byte) (*pgdump.IndexInfo, string) {
+			info, err := pgdump.ParseIndexFile(append([]byte{}, f...))
+			if err != nil || info == nil {
+				return nil, "index-file-rejected"
+			}
+			ty := pgdump.VerifDetectIndexType(append([]byte{}, f[:8192]...))
+			if info.Type != ty || info.TotalPages != len(f)/8192 || len(info.Pages) != len(f)/8192 { // C10_cost_ParseIndexFile
+				return nil, "index-type-or-page-count-not-from-first-page-and-length"
+			}
+			for i := range info.Pages {
+				own := pgdump.VerifParseIndexPage(append([]byte{}, f[i*8192:(i+1)*8192]...), uint32(i), ty)
+				if deepStr(own) != deepStr(info.Pages[i]) {
+					return nil, fmt.Sprintf("index-entry-%d-is-not-a-function-of-its-page", i)
+				}
+			}
+			return info, ""
+		}
+		i1, e1 := pointwise(file)
+		if e1 != "" {
+			return e1
+		}
+		i2, e2 := pointwise(dam)
+		if e2 != "" {
+			return "damaged:" + e2
+		}
+		if j != 0 {
+			if i1.Type != i2.Type || i1.TypeString != i2.TypeString || i1.TotalPages != i2.TotalPages || i1.Levels != i2.Levels ||
+				i1.RootPage != i2.RootPage || deepStr(i1.Meta) != deepStr(i2.Meta) {
+				return "index-page-locality-violated:summary"
+			}
+			for i := range i1.Pages {
+				if i != j && deepStr(i1.Pages[i]) != deepStr(i2.Pages[i]) {
+					return fmt.Sprintf("index-page-locality-violated:entry-%d", i)
+				}
+			}
+		}
+		return "ok"
+	})
 	// replacing the bytes of one tuple must leave every other line pointer's entry unchanged
 	register("LocalityTuple", func(a []string) string {
 		page, repl := unhex(a[0]), unhex(a[3])
